@@ -24,6 +24,12 @@ for p in sorted(glob.glob(os.path.join(ROOT, "props", "C*.json"))):
 pending = json.load(open(os.path.join(ROOT, "props", "_pending.json")))
 na = [{"property_id": i, "reason": pending.get(i, "not yet built in this round; see DESIGN.md §8")} for i in ids if i not in claimed]
 hooks = json.load(open(os.path.join(ROOT, "props", "_hooks.json")))
+import subprocess
+try:
+    out = subprocess.run(["git", "-C", "/repo", "log", "--format=%H %s"], capture_output=True, text=True).stdout
+    hooks["source_commits"] = [l.split()[0] for l in out.split("\n") if len(l.split()) > 1 and l.split(" ", 1)[1].startswith("verif:")]
+except Exception:
+    pass
 m = {
     "version": 1,
     "setup_cmd": "./setup",
